@@ -3,6 +3,7 @@ mod wire;
 mod dag;
 mod refeval;
 mod c01;
+mod c02;
 mod c03;
 mod c04;
 mod c10;
@@ -27,6 +28,8 @@ fn main() {
         "c10" => c10::run(seed, count, &outdir).unwrap(),
         "c15" => c15::run(seed, count, &outdir).unwrap(),
         "c20" => c20::run(seed, count, &outdir).unwrap(),
+        "c02" => c02::run(seed, count, &outdir).unwrap(),
+        "c02-chunk" => { let lo = count; let hi: usize = outdir.parse().unwrap(); c02::run_chunk(seed, lo, hi); 0 }
         "c03" => c03::run(seed, count, &outdir).unwrap(),
         "c04" => c04::run(seed, count, &outdir, args.get(5).map(|s| s == "jit").unwrap_or(false)).unwrap(),
         _ => { eprintln!("usage: fv <cmd> <seed> <count> <outdir> [budgets]"); 2 }
